@@ -316,6 +316,49 @@ pub fn run(ctx: &Ctx) -> Report {
             .reduce(Acc::default, |a, b| a.merge(b))
     };
     acc = acc.merge(sweep);
+    // long builders: n = 0..=40 (48 thorough) distinct filler attributes, then every tail of up to three
+    // operations (the position of an attribute in the builder is an input: an inline-capacity boundary
+    // of the type record, a position-indexed cache; seed C11-m needed the 16th position)
+    let long = {
+        use rayon::prelude::*;
+        let max_n: usize = ctx.tier.pick(40, 48);
+        let cases: Vec<(usize, Vec<Op>)> = (0..=max_n)
+            .flat_map(|n| {
+                let filler = |i: usize| Op::Raw(0xC100 + i as u16, vec![i as u8; i % 5]);
+                let mut t: Vec<Op> = vec![Op::Sha1(0), Op::Sha256(1), Op::Fp, Op::Raw(0xFF00, vec![0x42]), Op::Typed(Kind::Software, b"sw".to_vec()), Op::IntoOwned, Op::Clone];
+                if n > 0 {
+                    t.push(filler(n - 1));
+                    t.push(filler(0));
+                    t.push(filler(n / 2));
+                }
+                let mut tails: Vec<Vec<Op>> = Vec::new();
+                for a in &t {
+                    tails.push(vec![a.clone()]);
+                    for b in &t {
+                        tails.push(vec![a.clone(), b.clone()]);
+                        for c in &t {
+                            tails.push(vec![a.clone(), b.clone(), c.clone()]);
+                        }
+                    }
+                }
+                tails.into_iter().map(move |tail| {
+                    let mut ops: Vec<Op> = (0..n).map(filler).collect();
+                    ops.extend(tail);
+                    (n, ops)
+                }).collect::<Vec<_>>()
+            })
+            .collect();
+        cases
+            .into_par_iter()
+            .fold(Acc::default, |mut a, (n, ops)| {
+                let case = Prog { class: (n % 4) as u8, method: 1, tid: TID, ops }.to_case("builder_seq");
+                crate::props::judge_guarded(judge, &case, &mut a);
+                a.nontrivial += 1;
+                a
+            })
+            .reduce(Acc::default, |a, b| a.merge(b))
+    };
+    acc = acc.merge(long);
     // fixed programs with what the alphabets leave out: an attribute that re-enters the library, one that
     // leaves its padding to the zeroed destination (after an unrelated message was sealed on the thread),
     // a panic caught on this very thread inside each serialising call; then every sealing step
@@ -343,7 +386,7 @@ pub fn run(ctx: &Ctx) -> Report {
         states,
         transitions,
         exhaustive: true,
-        rule: "all sequences up to the depth over {add typed SOFTWARE/USERNAME/PRIORITY/XOR-MAPPED-ADDRESS, add raw 0xff00/0x7f00/SOFTWARE's code, add SHA-1 integrity, add SHA-256 integrity, add fingerprint, into_owned, clone, measure, clone_from, fork (keep a sibling clone alive; both are looked at after every step), swap (carry on with the sibling)} x {request, error}, and to depth 6 (7) over the attributes of the long-term credential flow {USERNAME, USERHASH, REALM, NONCE, PASSWORD-ALGORITHM typed SHA-256 / raw MD5, PASSWORD-ALGORITHMS, integrity under long- and short-term credentials, fingerprint} x {request, success}; states deduplicated on reference builder state + the builder's complete Debug snapshot; plus, for every 16-bit type code x, two fixed programs that add x as a raw attribute before / after typed attributes, add x ^ 0x40, seal in every way and try x again; distinct_nontrivial = unique states + sweep programs".into(),
+        rule: "all sequences up to the depth over {add typed SOFTWARE/USERNAME/PRIORITY/XOR-MAPPED-ADDRESS, add raw 0xff00/0x7f00/SOFTWARE's code, add SHA-1 integrity, add SHA-256 integrity, add fingerprint, into_owned, clone, measure, clone_from, fork (keep a sibling clone alive; both are looked at after every step), swap (carry on with the sibling)} x {request, error}, and to depth 6 (7) over the attributes of the long-term credential flow {USERNAME, USERHASH, REALM, NONCE, PASSWORD-ALGORITHM typed SHA-256 / raw MD5, PASSWORD-ALGORITHMS, integrity under long- and short-term credentials, fingerprint} x {request, success}; states deduplicated on reference builder state + the builder's complete Debug snapshot; plus, for every 16-bit type code x, two fixed programs that add x as a raw attribute before / after typed attributes, add x ^ 0x40, seal in every way and try x again; plus long builders: 0..=40 (48) distinct filler attributes followed by every tail of up to three operations over {SHA-1, SHA-256, fingerprint, a new raw / typed attribute, into_owned, clone, a repeat of the first / middle / last filler}; distinct_nontrivial = unique states + sweep programs".into(),
         bounds: json!({"depth": depth, "alphabet": 12, "levels": levels}),
         assumptions: vec!["a snapshot difference after a refused operation is an evidence note only (the successor is a new state whose futures are explored)".into()],
         caps_hit: caps,
